@@ -102,6 +102,14 @@ fn start(cfg: &Config, slot: usize, use_memcrsd: Option<&str>) -> Result<Server,
             c
         }
     };
+    // the server must not outlive this process, however it ends (watchdog exit, kill by a timeout)
+    unsafe {
+        use std::os::unix::process::CommandExt;
+        cmd.pre_exec(|| {
+            libc::prctl(libc::PR_SET_PDEATHSIG, libc::SIGKILL);
+            Ok(())
+        });
+    }
     let child = cmd.stdin(Stdio::null()).stdout(Stdio::null()).stderr(Stdio::null()).spawn().map_err(|e| format!("spawn: {}", e))?;
     let addr: SocketAddr = format!("{}:{}", ip, cfg.port).parse().unwrap();
     let mut srv = Server { child, addr };
